@@ -676,9 +676,13 @@ Proof. induction l as [|x l IH]; simpl; intro H; [reflexivity|]. rewrite (H x (o
 
 Lemma same_dim_live : forall c k1 k2, inv c -> live c k1 -> live c k2 -> same_dim (obj_of c k1) (obj_of c k2) = Nat.eqb k1 k2.
 Proof.
-  intros c k1 k2 Hi L1 L2. unfold same_dim. destruct (Nat.eqb k1 k2) eqn:E.
-  - apply Nat.eqb_eq in E. subst. rewrite dname_eqb_refl, Z.eqb_refl. reflexivity.
-  - apply Nat.eqb_neq in E. rewrite dname_eqb_neq; [reflexivity|]. intro Hn. apply E.
+  intros c k1 k2 Hi L1 L2. unfold same_dim.
+  (* the write loop compares the CURRENT entry's name with the EARLIER entry's name *)
+  change (pick DEDUPE_CMP_L (obj_of c k1) (obj_of c k2)) with (obj_of c k1).
+  change (pick DEDUPE_CMP_R (obj_of c k1) (obj_of c k2)) with (obj_of c k2).
+  destruct (Nat.eqb k1 k2) eqn:E.
+  - apply Nat.eqb_eq in E. subst. rewrite dname_eqb_refl, !Z.eqb_refl. reflexivity.
+  - apply Nat.eqb_neq in E. rewrite dname_eqb_neq; [apply andb_false_r|]. intro Hn. apply E.
     apply (i_names c Hi k1 k2 _ _ L1 L2 (obj_of_live c k1 Hi L1) (obj_of_live c k2 Hi L2) Hn).
 Qed.
 Lemma name_eq_live : forall c k1 k2, inv c -> live c k1 -> live c k2 ->
